@@ -44,9 +44,10 @@ structure St where
   tsid : List (SKey × Id)  -- `SeriesKeyToTSIDCache`, newest first
   caches : Caches
   deleted : List Id        -- `deleteMergeSet.deletedTSIDs`
+  needBump : Bool          -- `Table.needFlushCallbackCall`: a non-final flush owes the flush callback
 deriving Repr
 
-def St.init (clock now : Nat) : St := ⟨[], [], clock, now, now, [], noCaches, []⟩
+def St.init (clock now : Nat) : St := ⟨[], [], clock, now, now, [], noCaches, [], false⟩
 
 /-- `MergeSetIndex.decode`: one batch of items per created series. -/
 def decode (key : SKey) (id : Id) : List Item :=
@@ -117,6 +118,25 @@ def flush (s : St) : St :=
   if s.pend.isEmpty then s else
   { s with vis := s.vis ++ s.pend, pend := [], caches := s.caches.bump }
 
+/-- one tick of `rawItemsFlusher`: `flushRawItems(false)`. The raw items become parts (visible to
+searches) but the flush callback (`invalidateTagCache`) is *not* called: `mergeRawItemsBlocks` only
+sets `needFlushCallbackCall`, and the 10 s ticker of `OpenTable` calls it later (`bump`). -/
+def pflush (s : St) : St :=
+  if s.pend.isEmpty then s else
+  { s with vis := s.vis ++ s.pend, pend := [], needBump := true }
+
+/-- the 10 s ticker: `if CompareAndSwap(&needFlushCallbackCall, 1, 0) { flushCallback() }` -/
+def bump (s : St) : St :=
+  if s.needBump then { s with caches := s.caches.bump, needBump := false } else s
+
+/-- an eviction from the series-key cache (`workingsetcache`: size limit, rotation): any entries
+may vanish; the cache becomes the sub-list of the entries whose key satisfies `keep` -/
+def evict (s : St) (keep : SKey → Bool) : St :=
+  { s with tsid := s.tsid.filter (fun e => keep e.1) }
+
+/-- eviction of every entry of the tag filter cache and of the filter cost cache -/
+def evictFilters (s : St) : St := { s with caches := noCaches }
+
 /-- `MergeSetIndex.ClearCache` (flushes first, since fix d720cb5). -/
 def clear (s : St) : St :=
   let s := flush s
@@ -135,7 +155,7 @@ def raiseSeq (seq m : Nat) : Nat := if seq % 2 ^ 40 ≥ m then seq else seq - se
 /-- `Close` (final flush, caches dropped) then `Open` with the sequence pointer at `seq`. -/
 def reopenWith (s : St) (seq : Nat) : St :=
   let s := flush s
-  { s with tsid := [], caches := noCaches, seq := raiseSeq seq (maxStoredSeq s.vis s.clock) }
+  { s with tsid := [], caches := noCaches, seq := raiseSeq seq (maxStoredSeq s.vis s.clock), needBump := false }
 
 def reopen (s : St) : St := reopenWith s s.seq
 
